@@ -45,7 +45,13 @@ type Contract struct {
 	Iface      bool // interface method contract
 	NoVerify   bool // contract only used at call sites (e.g. interface methods)
 	Asserts    []*Clause
-	Known      []KnownRegion // filled from known_findings.json
+	CallSites  []*CallSiteClause // assertions about the arguments of calls made by this function
+	Known      []KnownRegion     // filled from known_findings.json
+}
+
+type CallSiteClause struct {
+	Callee string // name of the called function or method
+	Clause *Clause
 }
 
 type PureFunc struct {
@@ -96,15 +102,17 @@ type SpecEnv struct {
 }
 
 var (
-	reFunc  = regexp.MustCompile(`^func\s*(?:\(\s*(?:\w+\s+)?\*?(\w+)\s*\))?\s*([\w$]+)`)
-	reIface = regexp.MustCompile(`^interface\s+(?:(\w+)\.)?(\w+)\.(\w+)\s*\(`)
-	rePure  = regexp.MustCompile(`^pure\s+(\w+)\s*\(([^)]*)\)\s*([^=]*?)\s*(?:=\s*(.*))?$`)
-	reLemma = regexp.MustCompile(`^lemma\s+(\w+)\s*\(([^)]*)\)\s*:\s*(.*)$`)
-	reAxiom = regexp.MustCompile(`^axiom\s+(\w+)\s*:\s*(.*)$`)
-	reGhost = regexp.MustCompile(`^ghost\s+var\s+(\w+)\s+(.*)$`)
-	reLoop  = regexp.MustCompile(`^loop\s+(\d+|\*)\s+(invariant|decreases)\s+(.*)$`)
-	reFuncT = regexp.MustCompile(`^functype\s+(\w+)\s*\(`)
-	reTag   = regexp.MustCompile(`^\[(\w+)\]\s*(.*)$`)
+	reFunc     = regexp.MustCompile(`^func\s*(?:\(\s*(?:\w+\s+)?\*?(\w+)\s*\))?\s*([\w$]+)`)
+	reIface    = regexp.MustCompile(`^interface\s+(?:(\w+)\.)?(\w+)\.(\w+)\s*\(`)
+	rePure     = regexp.MustCompile(`^pure\s+(\w+)\s*\(([^)]*)\)\s*([^=]*?)\s*(?:=\s*(.*))?$`)
+	reLemma    = regexp.MustCompile(`^lemma\s+(\w+)\s*\(([^)]*)\)\s*:\s*(.*)$`)
+	reAxiom    = regexp.MustCompile(`^axiom\s+(\w+)\s*:\s*(.*)$`)
+	reGhost    = regexp.MustCompile(`^ghost\s+var\s+(\w+)\s+(.*)$`)
+	reLoop     = regexp.MustCompile(`^loop\s+(\d+|\*)\s+(invariant|decreases)\s+(.*)$`)
+	reFuncT    = regexp.MustCompile(`^functype\s+(\w+)\s*\(`)
+	reExtern   = regexp.MustCompile(`^extern\s+(\S+?)\s*(?:\(|$)`)
+	reCallSite = regexp.MustCompile(`^callsite\s+([\w.]+)\s*:\s*(.*)$`)
+	reTag      = regexp.MustCompile(`^\[(\w+)\]\s*(.*)$`)
 )
 
 func parseParams(s string) ([]SVar, error) {
@@ -199,6 +207,16 @@ func (P *Program) loadContractFile(file string) error {
 			if _, dup := P.contracts[key]; dup {
 				return fmt.Errorf("%s:%d: duplicate contract for %s", file, line, key)
 			}
+			P.contracts[key] = cur
+			return nil
+		case strings.HasPrefix(text, "extern "):
+			m := reExtern.FindStringSubmatch(text)
+			if m == nil {
+				return fmt.Errorf("%s:%d: bad extern header %q", file, line, text)
+			}
+			key := "ext:" + m[1]
+			cur = &Contract{Key: key, Pkg: pkg, Header: text, File: file, Line: line, Loops: map[int]*LoopSpec{}, NoVerify: true, Trusted: true}
+			curLemma = nil
 			P.contracts[key] = cur
 			return nil
 		case strings.HasPrefix(text, "functype "):
@@ -346,6 +364,16 @@ func (P *Program) loadContractFile(file string) error {
 				return err
 			}
 			cur.Ensures = append(cur.Ensures, c)
+		case "callsite":
+			m := reCallSite.FindStringSubmatch(text)
+			if m == nil {
+				return fmt.Errorf("%s:%d: bad callsite clause %q", file, line, text)
+			}
+			c, err := mkClause(m[2], line)
+			if err != nil {
+				return err
+			}
+			cur.CallSites = append(cur.CallSites, &CallSiteClause{Callee: m[1], Clause: c})
 		case "check":
 			c, err := mkClause(rest, line)
 			if err != nil {
